@@ -15,6 +15,7 @@ import (
 	"path/filepath"
 	"regexp"
 	"runtime/debug"
+	"runtime/pprof"
 	"sort"
 	"strconv"
 	"strings"
@@ -26,6 +27,7 @@ import (
 	"verif/vs"
 
 	_ "verif/harness/c03"
+	_ "verif/harness/c04"
 	_ "verif/harness/c11"
 )
 
@@ -90,7 +92,12 @@ func main() {
 }
 
 func worker(prop, tier, name string, budget float64, known string) {
-	debug.SetGCPercent(200)
+	debug.SetGCPercent(400)
+	if pf := os.Getenv("VCHECK_CPUPROFILE"); pf != "" {
+		f, _ := os.Create(pf)
+		pprof.StartCPUProfile(f)
+		defer pprof.StopCPUProfile()
+	}
 	inst := reg.Find(prop, name)
 	if inst == nil {
 		fmt.Printf("{\"scenario\":%q,\"engine_error\":\"unknown instance\"}\n", name)
@@ -234,7 +241,7 @@ func run(prop, tier string, budget float64, evidence, known, replays string, wor
 				return
 			}
 			cmd := exec.Command(self, "worker", "-prop", prop, "-tier", tier, "-name", inst.Name, "-budget", strconv.FormatFloat(left, 'f', 1, 64), "-known", known)
-			cmd.Env = append(os.Environ(), "GOMAXPROCS=2", "GOMEMLIMIT=6GiB")
+			cmd.Env = append(os.Environ(), "GOMAXPROCS=1", "GOMEMLIMIT=6GiB")
 			var errb strings.Builder
 			cmd.Stderr = &errb
 			out, err := cmd.Output()
